@@ -376,7 +376,7 @@ def extract(T, cap=400):
     import inspect
     import typing
     from typelib import constants, graph
-    from typelib.py import inspection
+    from typelib.py import inspection, refs
     ids, order, child_ids = {}, [], set()
 
     def tid(t):
@@ -405,6 +405,12 @@ def extract(T, cap=400):
             for var, child in graph._level(u):
                 if child in (constants.empty, typing.Any):
                     continue
+                # a field hint that is a string on the signature (class annotated on __init__ only) names the type it evaluates to
+                if var is not None and type(child) is typing.ForwardRef:
+                    try:
+                        child = refs.evaluate(child)
+                    except (NameError, AttributeError, TypeError, SyntaxError):
+                        pass
                 cid = tid(child)
                 child_ids.add(cid)
                 kids.append([var, cid])
@@ -488,6 +494,12 @@ def o_members(t):
             ms += [(k, hints[k]) for k in names if k in hints] + [(k, h) for k, h in hints.items() if k not in names]
         elif "__annotations__" in vars(u) or hasattr(u, "_fields") or hasattr(u, "__required_keys__"):
             ms += list(hints.items())
+        elif not hints and inspect.isfunction(vars(u).get("__init__")):
+            # a class annotated on its constructor only: the parameters are its fields
+            try:
+                ms += [(k, h) for k, h in typing.get_type_hints(u.__init__).items() if k != "return"]
+            except Exception:  # noqa: BLE001
+                pass
     return [(v, m) for v, m in ms if m is not typing.Any and not isinstance(m, typing.TypeVar)]
 
 
